@@ -311,11 +311,15 @@ impl<'a> Runner<'a> {
         let stateful = prm["stateful"].as_bool().ok_or("prm.stateful")?;
         let top = prm["noncemode"].as_str() == Some("top");
         let (k1, k2) = self.honest_session(("I", "R"), stateful, true)?;
-        let (d1, d2) = self.honest_session(("I2", "R2"), stateful, false)?;
         self.bind.atoms.insert("K1".into(), k1.to_vec());
         self.bind.atoms.insert("K2".into(), k2.to_vec());
-        self.bind.atoms.insert("D1".into(), d1.to_vec());
-        self.bind.atoms.insert("D2".into(), d2.to_vec());
+        // the donor session (same long-term keys, other ephemerals) is only run when the scenario refers to it
+        let txt = self.scn["steps"].to_string();
+        if txt.contains("[\"ref\",\"D1\"]") || txt.contains("[\"ref\",\"D2\"]") {
+            let (d1, d2) = self.honest_session(("I2", "R2"), stateful, false)?;
+            self.bind.atoms.insert("D1".into(), d1.to_vec());
+            self.bind.atoms.insert("D2".into(), d2.to_vec());
+        }
         if top && stateful {
             for id in ["I", "R"] {
                 if let Some(Endpoint::Tr(t)) = self.eps.get_mut(id) {
